@@ -147,6 +147,43 @@ theorem optimize_not_worse {X : Type} (similarity : X → Rat) (fmin : (X → Ra
   unfold optimizeWrapper
   linarith
 
+/-- contract of a SciPy optimiser when the cost may be `+∞` (non-finite parameter vectors) -/
+def MonotoneOptimizerG {X : Type} (fmin : (X → Option Rat) → X → X) : Prop :=
+  ∀ (cost : X → Option Rat) (x0 : X), costLe (cost (fmin cost x0)) (cost x0)
+
+/-- the wrapper with its guard against non-finite points: whatever the optimiser does, the returned
+    parameter vector is finite (a transform) when the initial guess is; and with a monotone optimiser the
+    similarity is not lowered -/
+theorem optimize_guarded_returns_transform {X : Type} (finite : X → Bool) (similarity : X → Rat)
+    (fmin : (X → Option Rat) → X → X) (tc0 : X) (h0 : finite tc0 = true) :
+    finite (optimizeWrapperG finite similarity fmin tc0) = true := by
+  unfold optimizeWrapperG
+  simp only
+  split <;> simp_all
+
+theorem optimize_guarded_not_worse {X : Type} (finite : X → Bool) (similarity : X → Rat)
+    (fmin : (X → Option Rat) → X → X) (h : MonotoneOptimizerG fmin) (tc0 : X) (h0 : finite tc0 = true) :
+    similarity tc0 ≤ similarity (optimizeWrapperG finite similarity fmin tc0) := by
+  have hm := h (fun tc => if finite tc then some (- similarity tc) else none) tc0
+  unfold optimizeWrapperG
+  simp only
+  split
+  · rename_i hf
+    simp only [hf, h0, if_true, costLe] at hm
+    linarith
+  · exact le_refl _
+
+/-- with every point finite the guarded wrapper is the plain one -/
+theorem optimize_guarded_eq_plain {X : Type} (similarity : X → Rat) (fmin : (X → Rat) → X → X) (tc0 : X) :
+    optimizeWrapperG (fun _ => true) similarity (fun cost x0 => fmin (fun x => (cost x).getD 0) x0) tc0 =
+      optimizeWrapper similarity fmin tc0 := by
+  simp [optimizeWrapperG, optimizeWrapper]
+
+/-- the guard matters: an optimiser that answers a non-finite point on a flat cost (what `fmin_powell`
+    does) makes the unguarded wrapper return that point, the guarded one the initial guess -/
+example : optimizeWrapperG (fun (x : Option Rat) => x.isSome) (fun _ => 0) (fun _ _ => none) (some 1) = some 1 := by
+  decide
+
 /-- `optimizer='steepest'`: no assumption on SciPy's multivariate optimisers is needed, only the
     contract of the 1-D minimiser -/
 theorem optimize_steepest_not_worse (similarity : List Rat → Rat)
